@@ -45,6 +45,7 @@ pub fn batches(check: &str) -> Vec<Batch> {
         "C04" => vec![
             b("quant-subst", { let mut o = GenOpts::base(&[Kind::Bdd, Kind::Bcdd]).emph(Quant, 14).emph(Subst, 14).emph(Gc, 8).emph(Order, 8).emph(Pick, 0).emph(SatCount, 0); o.allow_names = false; o }, 3),
             b("three-vars", { let mut o = GenOpts::base(&[Kind::Bdd, Kind::Bcdd]).emph(Quant, 14).emph(Subst, 14).emph(Order, 10); o.max_vars = 3; o.allow_names = false; o }, 2),
+            b("zbdd-restrict", { let mut o = GenOpts::base(&[Kind::Zbdd]).emph(Quant, 20).emph(Gc, 6).emph(AddVars, 6); o.allow_names = false; o }, 1),
         ],
         "C05" => vec![
             b("refcounts", { let mut o = GenOpts::base(&all_kinds()).emph(CloneH, 14).emph(DropH, 14).emph(Gc, 14).emph(Order, 6).emph(Subst, 6).emph(Dddmp, 3); o.allow_dddmp = true; o }, 3),
